@@ -409,7 +409,62 @@ def main():
         for o in run.obs:
             print("replay: [%s] %s: %s -- %s" % (o.status, o.loc, o.key, o.detail))
         return 1 if any(o.status == "violation" for o in run.obs) else 0
+    if a.tier == "thorough" and not a.no_evidence and os.path.abspath(a.repo) == "/repo":
+        selftest(run, a.prop)
     return engine.finish(run, seed, write=not a.no_evidence)
+
+
+def selftest(run, prop):
+    """thorough tier: both-ways self test of this property's rules on scratch copies of the current tree (outside /repo and
+    /verif, removed at once): every mutant of mutants/*.json and every confirmed seeded change of seeded/ that belongs to the
+    property must make the check report a violation naming the expected construct.  A miss means the checker is broken for
+    that construct (BROKEN-CHECKER, exit 2) - it is never reported as a violation of the property."""
+    import mutants as M
+    import glob, subprocess, tempfile, shutil
+    from concurrent.futures import ThreadPoolExecutor
+    ms = [dict(m, property=prop, also=[]) for m in M.load() if m["property"] == prop or prop in m.get("also", [])]
+    seeds = []
+    for mp in sorted(glob.glob(os.path.join(engine.VERIF, "seeded", "*", "meta.json"))):
+        try:
+            meta = json.load(open(mp))
+        except Exception:
+            continue
+        if meta.get("property") == prop:
+            seeds.append((meta["id"], os.path.join(os.path.dirname(mp), "patch.diff")))
+
+    def seed_one(item):
+        sid, patch = item
+        tmp = tempfile.mkdtemp(prefix="casm-seed-")
+        try:
+            subprocess.run(["rsync", "-a", "--exclude", "target", "--exclude", ".git", "/repo/", tmp + "/"], check=True)
+            pr = subprocess.run(["patch", "-p1", "-s", "-i", patch], cwd=tmp, capture_output=True, text=True)
+            if pr.returncode != 0:
+                return (sid, "skipped", "patch no longer applies to the current tree")
+            pr = subprocess.run([sys.executable, os.path.join(engine.VERIF, "lint", "check.py"), prop, "--repo", tmp, "--no-evidence"], capture_output=True, text=True)
+            if pr.returncode == 1 and "VIOLATION property=%s" % prop in pr.stdout:
+                return (sid, "detected", "")
+            if pr.returncode == 2:
+                return (sid, "skipped", "the changed tree could not be analysed (does not compile on the current tree)")
+            return (sid, "missed", "")
+        finally:
+            shutil.rmtree(tmp, ignore_errors=True)
+
+    with ThreadPoolExecutor(max_workers=int(os.environ.get("VERIF_JOBS", "8"))) as ex:
+        mres = list(ex.map(M.run_one, ms))
+        sres = list(ex.map(seed_one, seeds))
+    st = {"mutants": len(mres), "mutants_detected": sum(1 for r in mres if r[1] == "detected"), "mutants_skipped": [r[0] for r in mres if r[1] in ("skipped", "error")],
+          "seeded_changes": len(sres), "seeded_detected": sum(1 for r in sres if r[1] == "detected"), "seeded_skipped": [r[0] for r in sres if r[1] == "skipped"]}
+    run.counters["selftest"] = st
+    for r in mres:
+        if r[1] == "missed":
+            run.broken.append("self-test: mutant %s is not detected: %s" % (r[0], r[2][:300]))
+    for r in sres:
+        if r[1] == "missed":
+            run.broken.append("self-test: seeded change %s is not detected" % r[0])
+    run.rules_run.append("self-test (thorough): %d/%d mutants and %d/%d seeded changes of this property detected on scratch copies of the current tree" % (
+        st["mutants_detected"], st["mutants"], st["seeded_detected"], st["seeded_changes"]))
+    print("self-test: %d/%d mutants, %d/%d seeded changes detected%s" % (st["mutants_detected"], st["mutants"], st["seeded_detected"], st["seeded_changes"],
+          (" (skipped: %s)" % (st["mutants_skipped"] + st["seeded_skipped"])) if st["mutants_skipped"] or st["seeded_skipped"] else ""))
 
 
 if __name__ == "__main__":
